@@ -64,6 +64,10 @@ func (c *Case) Tracef(f string, a ...any) {
 	if len(c.Trace) < 4000 {
 		c.Trace = append(c.Trace, fmt.Sprintf(f, a...))
 	}
+	if c.Verbose {
+		// written at once, so that the script up to a process-fatal crash is on record
+		fmt.Fprintf(os.Stderr, "TRACE "+f+"\n", a...)
+	}
 }
 func (c *Case) Fail(rule, sig, f string, a ...any) {
 	d := fmt.Sprintf(f, a...)
